@@ -62,6 +62,16 @@ class C04(PoolCheck):
             if ch in ('etree', 'element') and doc.prefix_dep:
                 continue
             break
+        if rng.random() < 0.03:
+            # documents that are not UTF-8, handed over as characters (or as bytes: the declaration decides)
+            if not hasattr(self, '_encdocs'):
+                self._encdocs = [(k, i) for k in self.keys for i, d in enumerate(self.entries[k].docs)
+                                 if simio.declared_encoding(d.data) != 'utf-8']
+            if self._encdocs:
+                key, di = rng.choice(self._encdocs)
+                e = self.entries[key]
+                doc = e.docs[di]
+                ch = rng.choice(['text', 'stringio', 'textio', 'openfile_text', 'stringio', 'bytesio', 'raw'])
         plan, pclass = simio.gen_plan(rng, doc.data)
         src = {'ch': ch, 'plan': plan, 'pclass': pclass}
         n = rng.randrange(2, 6)
